@@ -4,11 +4,16 @@
 /verif/evidence are untouched.  usage: seed_matrix.py <worktree> <seeddir> [<seeddir> ...]"""
 import json, os, subprocess, sys, shutil
 V = os.path.dirname(os.path.dirname(os.path.abspath(__file__)))
-wt = os.path.abspath(sys.argv[1])
+args = sys.argv[1:]
+checks = []
+if args and args[0].startswith('--checks='):
+    checks = args.pop(0)[len('--checks='):].split(',')
+wt = os.path.abspath(args[0])
 tag = os.path.basename(wt)
-for sd in sys.argv[2:]:
+prefix = os.environ.get('SEED_PREFIX', '')
+for sd in args[1:]:
     sd = os.path.abspath(sd)
-    name = '%s-%s' % (tag, os.path.basename(sd))
+    name = '%s%s-%s' % (prefix, tag, os.path.basename(sd))
     subprocess.run(['git', '-C', wt, 'checkout', '-q', '--', '.'])
     if subprocess.run(['git', '-C', wt, 'apply', os.path.join(sd, 'patch.diff')]).returncode:
         print(name, 'PATCH DOES NOT APPLY')
@@ -16,9 +21,10 @@ for sd in sys.argv[2:]:
     out = '/var/tmp/tau-seed-out/' + name
     shutil.rmtree(out, ignore_errors=True)
     os.makedirs(out)
-    env = dict(os.environ, TAU_REPO=wt, TAU_VERIF_CACHE='/var/tmp/tau-verif-cache-seed-' + tag, TAU_VERIF_OUT=out,
+    env = dict(os.environ, TAU_REPO=wt, TAU_VERIF_CACHE='/var/tmp/tau-verif-cache-seed-' + prefix + tag, TAU_VERIF_OUT=out,
                VERIF_JOBS=os.environ.get('VERIF_JOBS', '7'))
-    r = subprocess.run([sys.executable, os.path.join(V, 'tools', 'run_all.py'), 'quick'], env=env, stdout=subprocess.PIPE, stderr=subprocess.STDOUT)
+    sel = [tag if c == 'own' else c for c in checks]
+    r = subprocess.run([sys.executable, os.path.join(V, 'tools', 'run_all.py'), 'quick'] + sel, env=env, stdout=subprocess.PIPE, stderr=subprocess.STDOUT)
     txt = r.stdout.decode(errors='replace')
     open(os.path.join(out, 'run_all.log'), 'w').write(txt)
     res = {}
